@@ -388,3 +388,79 @@ Print Assumptions c15_spelled_accept_sound. Print Assumptions c15_spelled_reject
 Print Assumptions c15_spelled_conservative. Print Assumptions c15_flag_with_arguments_rejected_partial.
 Print Assumptions c15_flag_with_arguments_rejected_refuted. Print Assumptions c15_dispatch_by_name_agrees_on_identifiers.
 Print Assumptions c15_dispatch_by_name_refuted. Print Assumptions c15_path_attributes. Print Assumptions c15_unrecognised_at_every_position.
+
+(* ------------------------------------------------------------------ include_source! nested in an ascent_source!: every position
+   (Check/NestedInclude.v).  The rejection is the business of ascent_source! (ascent_source_impl walks ALL items of the body with the
+   program parser); no invocation of a program macro sees it (c15_invoke_deferred), so the tie of this class is at the level of rustc:
+   gen/c15_nest.py, crates whose ascent_source! definition must fail with the dedicated message. *)
+From AV Require Import Check.NestedInclude.
+
+(* a source included at ANY position of a host whose earlier items parse, the nested include at ANY position of a body whose earlier
+   items parse — relations, lattices, rules, facts, any number of macro definitions —: the dedicated error, located at the nested
+   include, whatever follows, for every macro kind and every state of the identifier counter *)
+Theorem c15_nested_include_rejected_at_every_position : forall c0 P k hpre spre spost hpost,
+  p_items P = hpre ++ IInclude 0 (spre ++ I1Include 0 :: spost) :: hpost ->
+  forallb cleanI hpre = true -> forallb clean1 spre = true ->
+  check c0 P k = Reject EIncludeInSource /\ check_loc c0 P k = Err EIncludeInSource (1, length hpre, S (length spre)).
+Proof. exact nested_include_rejected_at_every_position. Qed.
+
+(* in particular directly behind macro definitions (the items that do not end with `;`) *)
+Theorem c15_nested_include_behind_macro_definitions_rejected : forall c0 P k hpre spre ms spost hpost,
+  p_items P = hpre ++ IInclude 0 (spre ++ macro_items ms ++ I1Include 0 :: spost) :: hpost ->
+  forallb cleanI hpre = true -> forallb clean1 spre = true -> check c0 P k = Reject EIncludeInSource.
+Proof. exact nested_include_behind_macro_definitions_rejected. Qed.
+
+(* without any hypothesis on the other items: a program including a source whose body has an include_source! ANYWHERE (attributed or
+   not) is rejected, by a parse-level error detected no later than the nested include; the same on a text with spelled attributes *)
+Theorem c15_nested_include_program_rejected : forall c0 P k p n src q m,
+  nth_error (p_items P) p = Some (IInclude n src) -> nth_error src q = Some (I1Include m) ->
+  exists e l, check c0 P k = Reject e /\ check_loc c0 P k = Err e l /\ loc_le l (1, p, S q).
+Proof. exact nested_include_program_rejected. Qed.
+Theorem c15_spelled_nested_include_rejected : forall c0 T k p a src q a',
+  nth_error (st_items T) p = Some (a, SBInclude src) -> nth_error src q = Some (a', B1Include) -> exists e, sp_check c0 T k = SReject e.
+Proof. exact spelled_nested_include_rejected. Qed.
+
+(* the walk of ascent_source_impl itself: found at its own position behind any well-formed items; never accepted behind any items *)
+Theorem c15_nested_include_found_at_every_position : forall p q0 pre post, forallb clean1 pre = true ->
+  scan_src p q0 (pre ++ I1Include 0 :: post) = Err EIncludeInSource (1, p, S (q0 + length pre)).
+Proof. exact nested_include_found_at_every_position. Qed.
+Theorem c15_nested_include_never_accepted : forall p q0 src q n, nth_error src q = Some (I1Include n) ->
+  exists e q', q' <= q /\ scan_src p q0 src = Err e (1, p, S (q0 + q')).
+Proof. exact nested_include_never_accepted. Qed.
+
+(* the variant "look for the include only at the token that starts an item, items starting at the beginning of the body and after
+   every top-level `;`" (lex_accepts; the seeded change): the same verdicts on bodies without macro definitions, blind behind a macro
+   definition — hence REFUTED as a check of this class *)
+Theorem c15_lexical_scan_agrees_without_macro_definitions : forall src, forallb ends_semi src = true -> lex_accepts src = full_accepts src.
+Proof. exact lex_scan_agrees_without_macro_definitions. Qed.
+Theorem c15_lexical_scan_misses_behind_macro_definitions : forall pre m ms n post,
+  forallb (fun x => negb (is_include1 x)) pre = true -> forallb (fun x => negb (is_include1 x)) post = true ->
+  lex_finds true (pre ++ macro_items (ms ++ [m]) ++ I1Include n :: post) = false.
+Proof. exact lex_scan_misses_behind_macro_definitions. Qed.
+Theorem c15_lexical_scan_rejects_every_nested_include_refuted :
+  exists src, In (I1Include 0) src /\ lex_accepts src = true /\ full_accepts src = false /\
+              (forall p q0, exists l, scan_src p q0 src = Err EIncludeInSource l).
+Proof. exact lex_scan_rejects_every_nested_include_refuted. Qed.
+
+(* computed: behind 0, 1, 2, 3 macro definitions (lexical scan accepts from 1 on; the walk rejects at the include's position); a body
+   relation, lattice, rule, fact, macro, macro, macro, relation with the nested include at each of its 9 positions, the source included
+   at each of the 4 positions of a host, under the 4 macros: sp_check = the dedicated error, sp_invoke = deferred *)
+Example c15_lexical_scan_behind_1_2_3_macro_definitions :
+  map (fun k => (lex_accepts (behind_macros k), full_accepts (behind_macros k), scan_src 7 0 (behind_macros k))) [0; 1; 2; 3] =
+  [(false, false, Err EIncludeInSource (1, 7, 1)); (true, false, Err EIncludeInSource (1, 7, 2));
+   (true, false, Err EIncludeInSource (1, 7, 3)); (true, false, Err EIncludeInSource (1, 7, 4))].
+Proof. exact lex_scan_behind_1_2_3_macro_definitions. Qed.
+Example c15_nested_include_every_position_every_macro :
+  forallb (fun p => forallb (fun q => forallb (fun k =>
+    match sp_check [] (ex_text p q) k, sp_invoke [] (ex_text p q) k with
+    | SReject (SBase EIncludeInSource), SDeferred => true
+    | _, _ => false
+    end) [KAscent; KAscentPar; KAscentRun; KAscentRunPar]) (seq 0 9)) (seq 0 4) = true.
+Proof. exact nested_include_every_position_every_macro. Qed.
+
+Print Assumptions c15_nested_include_rejected_at_every_position. Print Assumptions c15_nested_include_behind_macro_definitions_rejected.
+Print Assumptions c15_nested_include_program_rejected. Print Assumptions c15_spelled_nested_include_rejected.
+Print Assumptions c15_nested_include_found_at_every_position. Print Assumptions c15_nested_include_never_accepted.
+Print Assumptions c15_lexical_scan_agrees_without_macro_definitions. Print Assumptions c15_lexical_scan_misses_behind_macro_definitions.
+Print Assumptions c15_lexical_scan_rejects_every_nested_include_refuted. Print Assumptions c15_lexical_scan_behind_1_2_3_macro_definitions.
+Print Assumptions c15_nested_include_every_position_every_macro.
